@@ -81,6 +81,7 @@ type DgObs struct {
 	Len      int    `json:"len"`
 	T        int64  `json:"t"`
 	Mtu      int    `json:"mtu"`      // the sender's configured session MTU at this moment (0 = unknown sender)
+	Steady   bool   `json:"steady"`   // FEC data: no SetMtu has touched the flow since the first data packet of this group (see SessObs!closes)
 	OpenPar  bool   `json:"openparity"` // parity above the MTU in force whose group contains a data packet sent under a larger, earlier MTU
 	CryptOK  bool   `json:"cryptok"`  // decrypts and passes CRC32 / AEAD tag under the reference cipher
 	NonceNew bool   `json:"noncenew"` // the nonce was not used by an earlier datagram of this run
@@ -122,6 +123,8 @@ type endpointInfo struct {
 	unknownMtu bool            // see ForgetMtu
 	pendMtu   int              // a SetMtu call is in progress with this value (0 = none): until it returns either MTU may be in force
 	groupMtu  map[int64]int    // FEC group (first id) -> largest MTU in force when one of its data packets was sent
+	groupT0   map[int64]int64  // FEC group (first id) -> virtual time of its first data packet on the wire
+	mtuTouch  int64            // virtual time of the latest BeginSetMtu / SetMtu / EndSetMtu / ForgetMtu on the flow (-1: never)
 	fecBase   int64 // first FEC id seen
 	fecSeen   bool
 	group     map[int64][]byte // current groups' data packets (from the size field on), by fec seq
@@ -179,7 +182,7 @@ func (m *Monitor) Register(src, dst string, conv uint32, cfg SessCfg, snBase uin
 	m.mu.Lock()
 	defer m.mu.Unlock()
 	_, su := Crypt(cfg.Cipher)
-	ep := &endpointInfo{conv: conv, suite: su, d: cfg.D, p: cfg.P, mtu: cfg.Mtu, group: map[int64][]byte{}, groupMtu: map[int64]int{}, snBase: snBase,
+	ep := &endpointInfo{conv: conv, suite: su, d: cfg.D, p: cfg.P, mtu: cfg.Mtu, group: map[int64][]byte{}, groupMtu: map[int64]int{}, groupT0: map[int64]int64{}, mtuTouch: -1, snBase: snBase,
 		stream: map[uint32][]byte{}, frgOf: map[uint32]uint8{}}
 	if ep.mtu == 0 {
 		ep.mtu = 1400
@@ -201,6 +204,7 @@ func (m *Monitor) BeginSetMtu(src, dst string, mtu int) {
 			mtu = 1500
 		}
 		ep.pendMtu = mtu
+		ep.mtuTouch = int64(time.Since(m.start) / time.Millisecond)
 	}
 	m.mu.Unlock()
 }
@@ -211,6 +215,7 @@ func (m *Monitor) ForgetMtu(src, dst string) {
 	m.mu.Lock()
 	if ep := m.eps[flow(src, dst)]; ep != nil {
 		ep.mtu, ep.prevMtu, ep.pendMtu, ep.unknownMtu = 0, 0, 0, true
+		ep.mtuTouch = int64(time.Since(m.start) / time.Millisecond)
 	}
 	m.mu.Unlock()
 }
@@ -219,6 +224,7 @@ func (m *Monitor) EndSetMtu(src, dst string) {
 	m.mu.Lock()
 	if ep := m.eps[flow(src, dst)]; ep != nil {
 		ep.pendMtu = 0
+		ep.mtuTouch = int64(time.Since(m.start) / time.Millisecond)
 	}
 	m.mu.Unlock()
 }
@@ -236,6 +242,7 @@ func (m *Monitor) SetMtu(src, dst string, mtu int) {
 		ep.mtuAt = now
 		ep.mtu = mtu
 		ep.pendMtu = 0
+		ep.mtuTouch = now
 	}
 	m.mu.Unlock()
 }
@@ -342,9 +349,14 @@ func (m *Monitor) Observe(d *simnet.Dgram) {
 			o.FecSeq, o.FecPos, o.FecInRng = ep.relSeq(f.Seqid)
 			o.SizeOK = len(f.Padding) == 0 && int(f.Size) == len(f.Payload)+2
 			ep.group[int64(f.Seqid)] = append([]byte(nil), plain[wire.FecHeader:]...)
-			if g := int64(f.Seqid) / int64(ep.d+ep.p) * int64(ep.d+ep.p); o.Mtu > ep.groupMtu[g] {
+			g := int64(f.Seqid) / int64(ep.d+ep.p) * int64(ep.d+ep.p)
+			if o.Mtu > ep.groupMtu[g] {
 				ep.groupMtu[g] = o.Mtu
 			}
+			if _, ok := ep.groupT0[g]; !ok {
+				ep.groupT0[g] = o.T
+			}
+			o.Steady = !ep.unknownMtu && ep.pendMtu == 0 && ep.mtuTouch < ep.groupT0[g]
 			o.ParityOK = true
 			body = f.Payload
 		case wire.TypeParity:
@@ -482,7 +494,7 @@ func (w *World) FlushWire() {
 	w.Mon.mu.Unlock()
 	for i := range obs {
 		o := obs[i]
-		w.Tr.Add(map[string]any{"ev": "dg", "id": o.ID, "src": o.Src, "dst": o.Dst, "len": o.Len, "t": o.T, "mtu": o.Mtu, "openparity": o.OpenPar, "cryptok": o.CryptOK,
+		w.Tr.Add(map[string]any{"ev": "dg", "id": o.ID, "src": o.Src, "dst": o.Dst, "len": o.Len, "t": o.T, "mtu": o.Mtu, "steady": o.Steady, "openparity": o.OpenPar, "cryptok": o.CryptOK,
 			"noncenew": o.NonceNew, "bytesnew": o.BytesNew, "fecon": o.FecOn, "fectype": o.FecType, "fecseq": o.FecSeq, "fecpos": o.FecPos, "fecinrange": o.FecInRng, "sizeok": o.SizeOK,
 			"tiles": o.Tiles, "convok": o.ConvOK, "parityok": o.ParityOK, "segs": o.Segs, "ooblen": o.OOBLen, "injected": o.Injected, "fd": o.FD, "fp": o.FP})
 	}
